@@ -39,7 +39,7 @@ def log(msg):
     print(msg, flush=True)
 
 # ------------------------------------------------------------------------------------------------
-def prepare():
+def prepare(mpi=False):
     """stages shared by all properties; returns dict stage -> (ok, detail)"""
     os.makedirs(BUILD, exist_ok=True)
     st = {}
@@ -58,7 +58,7 @@ def prepare():
         except Stage as e:
             st['extraction'] = (False, e.detail); st['model_exe'] = None
         try:
-            st['cxx_exe'] = tie.cxx_build(); st['cxx'] = (True, '')
+            st['cxx_exe'] = tie.cxx_build('-DVERIF_MPI', 'mpi') if mpi else tie.cxx_build(); st['cxx'] = (True, '')
         except Stage as e:
             st['cxx'] = (False, e.detail); st['cxx_exe'] = None
         st['prepare_s'] = time.time() - t0
@@ -128,6 +128,7 @@ def main():
     ap.add_argument('--property'); ap.add_argument('--tier', default=os.environ.get('VERIF_TIER', 'quick'))
     ap.add_argument('--replay'); ap.add_argument('--setup', action='store_true')
     ap.add_argument('--oracles', action='store_true', help='also run the search oracles when everything agrees (self-test)')
+    ap.add_argument('--no-evidence', action='store_true', help='development: do not rewrite evidence/ (runs against a scratch copy of the repository)')
     a = ap.parse_args()
     if a.tier not in ('quick', 'thorough'):
         a.tier = 'quick'
@@ -142,7 +143,7 @@ def main():
     import props
     pid = a.property
     P = props.PROPS[pid]
-    st = prepare()
+    st = prepare(mpi=bool(P.get('mpi')))
     broken = []           # stages / obligations that no longer check
     for k in ('translator', 'cxx', 'extraction'):
         if not st[k][0]:
@@ -236,8 +237,9 @@ def main():
         'wall_s': round(wall, 2),
         'violations': len(new_viol) + (1 if broken and not new_viol else 0),
     }
-    os.makedirs(os.path.join(VERIF, 'evidence'), exist_ok=True)
-    json.dump(evidence, open(os.path.join(VERIF, 'evidence', pid + '.json'), 'w'), indent=1)
+    if not a.no_evidence:
+        os.makedirs(os.path.join(VERIF, 'evidence'), exist_ok=True)
+        json.dump(evidence, open(os.path.join(VERIF, 'evidence', pid + '.json'), 'w'), indent=1)
 
     log('%s tier=%s seed=%d: %d/%d theorems, %d cases (%d distinct non-trivial), %d correspondence differences, %.1fs'
         % (pid, a.tier, seed, proofs['discharged'], proofs['obligations'], cov['evaluations'], cov['distinct_nontrivial'], len(diffs), wall))
